@@ -378,4 +378,22 @@ def r11_symbol_table_registration(chk):
     r16_symbol_table_registration(chk, rule='C16.R11')
 
 
-RULES = [r1_lexer_aliases, r2_type_tables, r3_access, r4_import_table, r5_apply_table, r6_trap, r7_translate_before_use, r8_no_mutation_while_iterating, r9_every_type_record_is_translated, r10_adapter_keeps_smiv1_values, r11_symbol_table_registration]
+def r12_import_map_holds_the_imports_clause(chk):
+    """shared with C06.R15: an SMIv1 module and its SMIv2 transliteration attribute their references alike only if the
+    import map holds nothing but their IMPORTS (converted by the documented table)"""
+    from rules.C06 import r15_import_map_holds_the_imports_clause
+    r15_import_map_holds_the_imports_clause(chk, rule='C16.R12')
+
+
+def r13_trap_variables_like_notification_objects(chk):
+    """shared with C06.R3: a TRAP-TYPE is the SMIv1 spelling of a NOTIFICATION-TYPE, so its VARIABLES must be turned
+    into object references by the same expression as the OBJECTS of the SMIv2 clauses"""
+    from rules.C06 import r3_object_lists
+    common.reuse(chk, r3_object_lists, ('C06.R3',), 'C16.R13',
+                 'genTrapType builds its list of object references with the same expression as genNotificationType / '
+                 'genObjectGroup / genNotificationGroup (C06.R3 object-list-builders-agree): module from '
+                 '_importMap.get(<name as the sibling handlers spell it>, own module), object = transOpers(name)',
+                 keep=lambda o: 'agree' in o.key or 'TrapType' in o.key, floor=1)
+
+
+RULES = [r1_lexer_aliases, r2_type_tables, r3_access, r4_import_table, r5_apply_table, r6_trap, r7_translate_before_use, r8_no_mutation_while_iterating, r9_every_type_record_is_translated, r10_adapter_keeps_smiv1_values, r11_symbol_table_registration, r12_import_map_holds_the_imports_clause, r13_trap_variables_like_notification_objects]
